@@ -1,4 +1,5 @@
 import MoqModel.GoFile
+import MoqModel.AllocLemmas
 /-
   C20 — one mock per requested interface, named as requested, independent of the others.
 
@@ -158,5 +159,84 @@ theorem c20_file_mocks (d : Data) (f : GoFile) (h : genFile d = some f) :
 example : parseInterfaceName s%"Store" = (s%"Store", s%"StoreMock") ∧
           parseInterfaceName s%"Store:Fake" = (s%"Store", s%"Fake") ∧
           parseInterfaceName s%"A:B:C" = (s%"A", s%"B:C") := by decide
+
+end Moq
+
+namespace Moq
+
+/-- scope entries are well-shaped: as many names as types in every signature (Go syntax) -/
+def ScopeShaped (scope : List (Str × Obj)) : Prop :=
+  ∀ kv ∈ scope, match kv.2 with
+    | .iface ms _ _ _ _ => ∀ m ∈ ms, m.pnames.length = m.ptys.length ∧ m.rnames.length = m.rtys.length
+    | _ => True
+
+/-- every mock of a successful run is the mock of the interface the package scope holds under
+    its name: same methods, same order, same arity and variadic-ness, and exactly the
+    interface's parameter and result types – whatever the registry held when it was built -/
+theorem mocksAlloc_mock_shape (o : Ord) (fuel : Nat) (scope : List (Str × Obj)) (hs : ScopeShaped scope) :
+    ∀ (args : List Str) (r r' : Registry) (ms : List MockAlloc),
+      mocksAlloc o fuel scope r args = .ok (r', ms) →
+      ∀ m ∈ ms, ∃ k msIn generic tps ts,
+        scope.find? (fun x => x.1 = m.ifaceName) = some (k, .iface msIn generic tps true ts) ∧
+        m.methods.map MethodAlloc.sigView = msIn.map MethodIn.sigView := by
+  intro args
+  induction args with
+  | nil => intro r r' ms h m hm; simp [mocksAlloc] at h; rw [h.2] at hm; cases hm
+  | cons np nps ih =>
+    intro r r' ms h m hm
+    unfold mocksAlloc at h
+    rcases hp : parseInterfaceName np with ⟨name, mockName⟩
+    simp only [hp] at h
+    cases hsf : scope.find? (fun x => x.1 = name) with
+    | none => simp [hsf] at h
+    | some kv =>
+      rcases kv with ⟨k, obj⟩
+      cases obj with
+      | notIface ts => simp [hsf] at h
+      | iface msIn generic tps tn ts =>
+        cases tn with
+        | false => simp [hsf] at h
+        | true =>
+        simp only [hsf] at h
+        cases hma : methodsAlloc o fuel r msIn with
+        | error e => simp [hma] at h
+        | ok rm =>
+          rcases rm with ⟨r1, mas⟩
+          simp only [hma] at h
+          cases htp : (if generic then tparamsAlloc o fuel r1 tps else .ok (r1, [])) with
+          | error e => simp [htp] at h
+          | ok rt =>
+            rcases rt with ⟨r2, tvs⟩
+            simp only [htp] at h
+            cases hrest : mocksAlloc o fuel scope r2 nps with
+            | error e => simp [hrest] at h
+            | ok rr =>
+              rcases rr with ⟨r3, rest⟩
+              simp only [hrest] at h
+              cases h
+              rcases List.mem_cons.mp hm with rfl | hm
+              · refine ⟨k, msIn, generic, tps, ts, hsf, ?_⟩
+                have hmem := List.mem_of_find?_eq_some hsf
+                have hshape := hs _ hmem
+                simp only [] at hshape
+                exact methodsAlloc_shape o fuel msIn r r1 mas hshape hma
+              · exact ih r2 _ rest hrest m hm
+
+/-- **independence**: the mock of an interface has the same methods with the same types in any
+    two successful runs over the same package – other interfaces requested alongside, their
+    order, the flags that shape the registry, even the map-iteration order change qualifiers and
+    parameter *names* at most, never the mock as a type -/
+theorem c20_independent (o1 o2 : Ord) (f1 f2 : Nat) (scope : List (Str × Obj)) (hs : ScopeShaped scope)
+    (args1 args2 : List Str) (r1 r1' r2 r2' : Registry) (ms1 ms2 : List MockAlloc)
+    (h1 : mocksAlloc o1 f1 scope r1 args1 = .ok (r1', ms1))
+    (h2 : mocksAlloc o2 f2 scope r2 args2 = .ok (r2', ms2))
+    (m1 m2 : MockAlloc) (hm1 : m1 ∈ ms1) (hm2 : m2 ∈ ms2) (hn : m1.ifaceName = m2.ifaceName) :
+    m1.methods.map MethodAlloc.sigView = m2.methods.map MethodAlloc.sigView := by
+  obtain ⟨k1, msIn1, g1, tps1, ts1, hf1, hv1⟩ := mocksAlloc_mock_shape o1 f1 scope hs args1 r1 r1' ms1 h1 m1 hm1
+  obtain ⟨k2, msIn2, g2, tps2, ts2, hf2, hv2⟩ := mocksAlloc_mock_shape o2 f2 scope hs args2 r2 r2' ms2 h2 m2 hm2
+  rw [hn] at hf1
+  rw [hf1] at hf2
+  cases hf2
+  rw [hv1, hv2]
 
 end Moq
